@@ -91,10 +91,18 @@ class ForeignGen:
                 else:
                     v = self.name(prefixes, default)
                     obj[f] = [v] if r.random() < 0.15 else v       # single value wrapped in an array
+        fam = {"agent": ["prov:Person", "prov:Organization", "prov:SoftwareAgent"],
+               "entity": ["prov:Plan", "prov:Collection", "prov:EmptyCollection", "prov:Bundle"],
+               "wasDerivedFrom": ["prov:Revision", "prov:Quotation", "prov:PrimarySource"]}.get(kind)
+        if fam and r.random() < 0.15:
+            # two PROV subtypes of the record's own base class (only one can name a PROV-XML element)
+            obj["prov:type"] = [{"$": t, "type": "prov:QUALIFIED_NAME"} for t in r.sample(fam, 2)]
         if kind == "hadMember" and r.random() < 0.4:
             obj["prov:entity"] = [self.name(prefixes, default) for _ in range(r.randint(2, 3))]
         for _ in range(r.randint(0, 3)):
             an = r.choice(["prov:type", "prov:label", "prov:value", "prov:location", "prov:role", self.name(prefixes, default)])
+            if an == "prov:type" and isinstance(obj.get("prov:type"), list) and len(obj["prov:type"]) == 2:
+                continue
             if an == "prov:label":
                 v = r.choice(["a label", {"$": "étiquette", "lang": "fr"}])
             else:
